@@ -413,6 +413,58 @@ fn synthetic_gsub() -> Vec<u8> {
     g.done()
 }
 
+/// GSUB 1.1 whose FeatureVariations has two records (axis 0 in [0.5, 1] and in [-1, -0.5]); both substitution tables
+/// replace liga by the SAME alternate feature table (lookup 1: a->c) and smcp by different ones (lookup 3: b->+3 in the
+/// first region, lookup 4: b->+4 in the second). Anything that identifies a substitution table by its first alternate
+/// confuses the two regions.
+fn synthetic_gsub_two_regions() -> Vec<u8> {
+    fn single(cov_glyph: u16, delta: i16) -> Vec<u8> {
+        let mut w = W::new();
+        w.u16(1).u16(0).u16(1).u16(8); // lookup: type 1, flag 0, 1 subtable at 8
+        w.u16(1).u16(6).i16(delta).u16(1).u16(1).u16(cov_glyph);
+        w.done()
+    }
+    let lookups = [single(1, 1), single(1, 2), single(2, 2), single(2, 3), single(2, 4)];
+    let mut ll = W::new();
+    ll.u16(lookups.len() as u16);
+    let mut off = 2 + 2 * lookups.len();
+    for l in &lookups {
+        ll.u16(off as u16);
+        off += l.len();
+    }
+    for l in &lookups {
+        ll.bytes(l);
+    }
+    let ll = ll.done();
+    let mut fl = W::new();
+    fl.u16(2).tag(tag::LIGA).u16(14).tag(tag::SMCP).u16(20);
+    fl.u16(0).u16(1).u16(0); // liga: lookup 0
+    fl.u16(0).u16(1).u16(2); // smcp: lookup 2
+    let fl = fl.done();
+    let mut sl = W::new();
+    sl.u16(1).tag(tag::DFLT).u16(8);
+    sl.u16(4).u16(0).u16(0).u16(0xFFFF).u16(2).u16(0).u16(1);
+    let sl = sl.done();
+    let mut fv = W::new();
+    fv.u16(1).u16(0).u32(2);
+    fv.u32(24).u32(52); // record A: condition set at 24, substitution table at 52
+    fv.u32(38).u32(70); // record B: condition set at 38, substitution table at 70
+    fv.u16(1).u32(6).u16(1).u16(0).i16(8192).i16(16384); // condition set A: axis 0 in [0.5, 1.0]
+    fv.u16(1).u32(6).u16(1).u16(0).i16(-16384).i16(-8192); // condition set B: axis 0 in [-1.0, -0.5]
+    fv.u16(1).u16(0).u16(2).u16(0).u32(36).u16(1).u32(42); // substitution table A (at 52): liga -> 88, smcp -> 94
+    fv.u16(1).u16(0).u16(2).u16(0).u32(18).u16(1).u32(30); // substitution table B (at 70): liga -> 88, smcp -> 100
+    fv.u16(0).u16(1).u16(1); // 88: alternate liga: lookup 1
+    fv.u16(0).u16(1).u16(3); // 94: alternate smcp, region A: lookup 3
+    fv.u16(0).u16(1).u16(4); // 100: alternate smcp, region B: lookup 4
+    let fv = fv.done();
+    assert_eq!(fv.len(), 106);
+    let mut g = W::new();
+    let h = 14;
+    g.u16(1).u16(1).u16(h as u16).u16((h + sl.len()) as u16).u16((h + sl.len() + fl.len()) as u16).u32((h + sl.len() + fl.len() + ll.len()) as u32);
+    g.bytes(&sl).bytes(&fl).bytes(&ll).bytes(&fv);
+    g.done()
+}
+
 /// GSUB larger than 64 KiB: two Extension lookups (liga -> lookup 0: a->b, calt -> lookup 1: b->c) whose SingleSubst
 /// subtables - and therefore their Coverage tables - lie exactly `distance` bytes apart. The Coverage/ClassDef object
 /// caches are keyed by table offset; any key that loses high bits makes the two collide, and which coverage is returned
@@ -535,6 +587,23 @@ fn subjects(ctx: &Ctx) -> Vec<Subject> {
             Op::Tables,
         ];
         v.push(Subject { name: "synthetic-variable-gsub".into(), data, filter: None, ops });
+    }
+    // 1b. two variation regions whose substitution tables share their first alternate feature
+    {
+        let cmap = [(b'a' as u32, 1u16), (b'b' as u32, 2), (b'c' as u32, 3), (b'x' as u32, 4), (0x25CC, 5)];
+        let data = otmodel::tables::minimal_font(8, &cmap, &[(tag::GSUB, synthetic_gsub_two_regions()), (tag::FVAR, fvar_one_axis())]);
+        let shape = |feats, tuple| Op::Shape { text: "ab", script: tag::DFLT, lang: None, feats, tuple, kerning: true };
+        let ops = vec![
+            shape(FeatSel::Mask(dflt | smcp), Some(12288)),
+            shape(FeatSel::Mask(dflt | smcp), Some(-12288)),
+            shape(FeatSel::Mask(dflt | smcp), None),
+            shape(FeatSel::Mask(dflt), Some(12288)),
+            shape(FeatSel::Mask(dflt), Some(-12288)),
+            shape(FeatSel::Custom(vec![tag::LIGA, tag::SMCP]), Some(12288)),
+            shape(FeatSel::Custom(vec![tag::LIGA, tag::SMCP]), Some(-12288)),
+            Op::Tables,
+        ];
+        v.push(Subject { name: "synthetic-variable-gsub-two-regions-sharing-an-alternate".into(), data, filter: None, ops });
     }
     let thorough = ctx.tier.thorough();
     // 2. Devanagari (dotted circle insertion consumes the cached dotted circle glyph)
@@ -941,6 +1010,60 @@ fn run_pure(ctx: &Ctx) {
     }
 }
 
+/// Long chains: a cache with a capacity, an eviction or a resize threshold only misbehaves after many DISTINCT keys. The
+/// subject has 64 calls with pairwise different (script, language, feature mask) keys over one text; for every k in 0..=64
+/// the first k calls are made on a fresh font and then every one of the 64 calls is probed and compared with its result on a
+/// fresh font (k x 64 probes - the chain order is fixed, the chain length and the probe are enumerated completely).
+fn long_chain_subject() -> Subject {
+    let data = crate::util::fixture("fonts/opentype/Klei.otf");
+    let dflt = FeatureMask::default().bits();
+    let smcp = FeatureMask::SMCP.bits();
+    const LANGS: [&[u8; 4]; 16] = [b"AAA ", b"AAB ", b"AAC ", b"AAD ", b"AAE ", b"AAF ", b"AAG ", b"AAH ", b"AAI ", b"AAJ ", b"AAK ", b"AAL ", b"AAM ", b"AAN ", b"AAO ", b"AAP "];
+    let mut ops = Vec::new();
+    for l in LANGS.iter() {
+        for (script, mask) in [(tag::LATN, dflt), (tag::LATN, dflt | smcp), (tag::DFLT, dflt), (tag::CYRL, dflt | smcp)] {
+            ops.push(Op::Shape { text: "office", script, lang: Some(otmodel::tag(l)), feats: FeatSel::Mask(mask), tuple: None, kerning: true });
+        }
+    }
+    Subject { name: "Klei-long-chain-of-distinct-cache-keys".into(), data, filter: None, ops }
+}
+
+fn long_chains(ctx: &Ctx) {
+    let s = long_chain_subject();
+    let n = s.ops.len();
+    let fresh: Vec<String> = (0..n).map(|j| run_hist(&s, &[], j as u8).0).collect();
+    let bad: Vec<(usize, usize, String)> = (0..=n)
+        .into_par_iter()
+        .flat_map_iter(|k| {
+            let r = guard(|| {
+                with_subject(&s, |font, fvar| {
+                    for h in 0..k {
+                        let _ = apply(font, &s.ops[h], fvar);
+                    }
+                    (0..n).map(|j| apply(font, &s.ops[j], fvar)).collect::<Vec<String>>()
+                })
+            });
+            let got: Vec<String> = match r {
+                Ok(v) => v,
+                Err(p) => vec![format!("PANIC {} at {}", p.msg, p.site_key("/repo")); n],
+            };
+            let fresh = &fresh;
+            (0..n).filter(move |&j| got[j] != fresh[j]).map(move |j| (k, j, String::new())).collect::<Vec<_>>()
+        })
+        .collect();
+    for (k, j, _) in &bad {
+        ctx.violation("C03:history-dependent:long-chain-of-distinct-cache-keys", || {
+            json!({"subject": s.name, "history_op_ids": (0..*k).collect::<Vec<usize>>(), "probe_op_id": j, "history": format!("the first {} calls of the chain", k), "probe": s.ops[*j].describe(),
+                   "on_fresh_font": fresh[*j], "after_history": run_hist(&s, &(0..*k as u8).collect::<Vec<u8>>(), *j as u8).0})
+        });
+    }
+    let evals = ((n + 1) * n) as u64;
+    ctx.evals(evals);
+    ctx.add_states((n + 1) as u64);
+    ctx.add_transitions(evals);
+    ctx.set("long_chains", json!({"distinct_keys": n, "chain_lengths": format!("0..={}", n), "probes": evals}));
+}
+
 pub fn run(ctx: &Ctx) {
     ctx.set_rule(
         "state = canonical digest (hook H3) of every mutable slot of a Font reached by a witness history of API calls from a per-font \
@@ -956,6 +1079,7 @@ pub fn run(ctx: &Ctx) {
         let d = if s.ops.len() > 12 { depth.min(3) } else { depth };
         explore_subject(ctx, &s, d);
     }
+    long_chains(ctx);
     run_pure(ctx);
     ctx.set("bounds", json!({"history_length": "unbounded (fixpoint)", "unmerged_cross_check_depth": depth}));
 }
@@ -963,7 +1087,8 @@ pub fn run(ctx: &Ctx) {
 pub fn replay(w: &Value) -> Result<(), String> {
     let name = w["subject"].as_str().ok_or("no subject")?;
     let ctx = Ctx::new("C03", mcx::Tier::Thorough, "model_checking");
-    let subs = subjects(&ctx);
+    let mut subs = subjects(&ctx);
+    subs.push(long_chain_subject());
     let s = subs.iter().find(|s| s.name == name).ok_or("unknown subject")?;
     let hist: Vec<u8> = w["history_op_ids"].as_array().ok_or("no history_op_ids")?.iter().map(|x| x.as_u64().unwrap() as u8).collect();
     let p = w["probe_op_id"].as_u64().ok_or("no probe_op_id")? as u8;
